@@ -528,6 +528,10 @@ class Facts:
                 for op in ops:
                     if op.get("k") == "const" and "fn" in op:
                         fnp = op["fn"]
+                        if op.get("fn_resolved"):
+                            if not op.get("fn_resolved_local"):
+                                continue  # statically resolved to a foreign function
+                            fnp = op["fn_resolved"]
                         if fnp in self.data["mir"]:
                             edges.add(fnp)
                             sites.setdefault((name, fnp), []).append((bi, None))
